@@ -26,7 +26,7 @@ class Spec:
 
 
 def build_state(ctx, pfx, N, terms=None, coeff_rows=None, atom_rows=2, pair_coeffs=True, extra=None, cell=None,
-                pos=None, elements=None, type_hi=None):
+                pos=None, elements=None, type_hi=None, fixed_width_extra=False):
     """an Atoms object with N atoms.  terms: kind->count; coeff_rows: kind->number of coefficient rows (0 = no table);
     extra: 'atom'/kind -> list of column labels.  Tables hold distinct tokens prefixed by pfx."""
     Atoms = ctx.ms.Atoms
@@ -66,7 +66,9 @@ def build_state(ctx, pfx, N, terms=None, coeff_rows=None, atom_rows=2, pair_coef
     sp.extra_labels['atom'] = lab
     sp.extra['atom'] = [[f"{pfx}xa{i}.{c}" for c in range(len(lab))] for i in range(N)]
     a.extra_atom_labels = OrderedSet(lab)
-    a.extra_atom_fields = (np.array(sp.extra['atom'], dtype=object).reshape((N, len(lab)))
+    # fixed_width_extra: as the public constructor / the CIF reader build them (numpy fixed-width string dtype), not object arrays
+    xdt = None if fixed_width_extra else object
+    a.extra_atom_fields = (np.array(sp.extra['atom'], dtype=xdt).reshape((N, len(lab)))
                            if lab else np.full((N, 0), '.', dtype=object))
     for kind, ar in KINDS:
         n = terms.get(kind, 0)
@@ -92,7 +94,7 @@ def build_state(ctx, pfx, N, terms=None, coeff_rows=None, atom_rows=2, pair_coef
         else:
             setattr(a, kind + 's', np.array([], dtype=int))
             setattr(a, kind + '_types', np.array([], dtype=int))
-        setattr(a, f'extra_{kind}_fields', (np.array(sp.extra[kind], dtype=object).reshape((n, len(lab)))
+        setattr(a, f'extra_{kind}_fields', (np.array(sp.extra[kind], dtype=xdt).reshape((n, len(lab)))
                                            if lab else np.full((n, 0), '.', dtype=object)))
     a.cell = None if cell is None else np.array(cell)
     return a, sp
